@@ -138,6 +138,8 @@ def run_call(bs, call, to):
     try:
         if call.get("omit_maxsize"):
             pass            # the limit in force is the socket's own maxsize (recorded in call["maxsize"] for the specification)
+        elif call.get("none_maxsize"):
+            kw = dict(kw, maxsize=None)      # an explicit None: no limit for this call, whatever the socket's own limit is
         elif c in ("recv_until", "recv_close"):
             kw = dict(kw, maxsize=call["maxsize"])
         if c == "recv_until":
@@ -215,6 +217,8 @@ def recv_session(rng, maxlen):
             call = gen_call(rng, n)
             if inst_max is not None and call["c"] in ("recv_until", "recv_close") and rng.random() < 0.35:
                 call["omit_maxsize"], call["maxsize"] = True, inst_max
+            elif inst_max is not None and call["c"] in ("recv_until", "recv_close") and rng.random() < 0.3:
+                call["none_maxsize"], call["maxsize"] = True, 10 ** 6
             for attempt in range(12):
                 if attempt and rng.random() < 0.3:
                     # after an interruption the caller asks for something else (another delimiter, another call): nothing of
